@@ -80,12 +80,12 @@ Definition ro_table : list (string * list string) := [
                   "Height"; "String"; "MarshalJSON"])
 ].
 
-(* Methods that are a SEQUENCE of separately locked calls on the same instance (one per variadic element). They are
-   race free and every constituent call is atomic, but the method as a whole is not one atomic step; accepted
-   and documented (reported to the maintainers as a weakness, see lib/props/C11.py). Anything else of that shape
-   fails check_tables. *)
+(* Methods that are a SEQUENCE of separately locked calls on the same instance (e.g. one per variadic element) are race
+   free and atomic per constituent call, but the method as a whole is not one atomic step, which the property
+   requires: such a method fails check_tables unless it is listed here. The list is EMPTY: zset.Set.Add/Remove/Contains
+   used to be of that shape (finding C11-new-zset-variadic-calls-not-atomic, repaired by fix 0040: the lock is held
+   for the whole variadic call). *)
 Definition compound_known : list (string * string) := [
-  ("zset.Set", "Add"); ("zset.Set", "Remove"); ("zset.Set", "Contains")
 ].
 
 (* Every type the library offers as concurrency-safe must be present in the regenerated table (a translator that
